@@ -1,6 +1,9 @@
 package mon
 
 import (
+	"fmt"
+	"strings"
+
 	"verif/harness/gen"
 	"verif/harness/ref"
 )
@@ -23,11 +26,12 @@ func spellings(r *gen.R) []ref.PrintOpts {
 func init() {
 	Register(&Property{
 		ID:            "C01",
-		Rule:          "core-language expressions (selector-chain grid over fixed documents; seeded document-directed random ASTs rendered in two spellings) evaluated by Search and Compile+Search and compared with the independent reference model; a case is non-trivial when the model decides it and its outcome is a non-null, non-empty value or an error; distinct by (expression text, document)",
+		Rule:          "core-language expressions (selector-chain grid over fixed documents; index and slice literals at the 8/16/32/64-bit boundaries over arrays of 1..300 elements in every position an index can take: after a field, after a pipe, on the current node, after a parenthesis, inside projections and filters; seeded document-directed random ASTs rendered in two spellings) evaluated by Search and Compile+Search and compared with the independent reference model; a case is non-trivial when the model decides it and its outcome is a non-null, non-empty value or an error; distinct by (expression text, document)",
 		MinNontrivial: 200,
 		Streams: []Stream{
 			{Name: "random", N: func(c *Ctx) int { return tierN(c, 30000, 3000000) }, Run: c01Random},
 			{Name: "grid", N: c01GridN, Run: c01Grid, Exhaustive: true},
+			{Name: "index-boundaries", N: func(c *Ctx) int { return len(c01IdxLens) * len(c01IdxLits) }, Run: c01IndexBoundaries, Exhaustive: true},
 		},
 	})
 }
@@ -44,6 +48,46 @@ func c01Random(c *Ctx, idx int) {
 		if IsNontrivialOutcome(m) {
 			c.Nontrivial(text, ref.ToJSONText(doc))
 			c.Sample(map[string]any{"expr": text, "doc": ref.ToJSONText(doc), "model": m.String()})
+		}
+	}
+}
+
+// index literals at the boundaries of the integer widths, over arrays long
+// enough for them to select something
+var c01IdxLens = []int{1, 2, 60, 127, 128, 129, 200, 255, 256, 257, 300}
+var c01IdxLits = []string{"0", "1", "-1", "59", "60", "126", "127", "128", "129", "130", "199", "200", "254", "255", "256", "257", "299", "300", "-60", "-127", "-128", "-129", "-200", "-255", "-256", "-257", "-300", "-301",
+	"32767", "32768", "65535", "65536", "-32768", "-32769", "2147483647", "2147483648", "4294967295", "4294967296", "-2147483648", "-2147483649", "9223372036854775807", "-9223372036854775808"}
+
+func c01IndexBoundaries(c *Ctx, idx int) {
+	n := c01IdxLens[idx%len(c01IdxLens)]
+	N := c01IdxLits[idx/len(c01IdxLens)]
+	x := &ref.Arr{E: make([]ref.V, n)}
+	rows := &ref.Arr{E: make([]ref.V, n)}
+	recs := &ref.Arr{E: make([]ref.V, n)}
+	for i := 0; i < n; i++ {
+		x.E[i] = gen.IntV(int64(i))
+		rows.E[i] = &ref.Arr{E: []ref.V{gen.IntV(int64(i)), gen.IntV(int64(i + 1))}}
+		o := ref.NewObj()
+		o.Set("a", gen.IntV(int64(i)))
+		o.Set("xs", x)
+		recs.E[i] = o
+	}
+	doc := ref.NewObj()
+	doc.Set("x", x)
+	doc.Set("rows", rows)
+	doc.Set("recs", recs)
+	doc.Set("o", map[bool]ref.V{true: recs.E[0], false: nil}[n > 0])
+	goDoc := ref.ToGo(doc, ref.JSONNumber)
+	forms := []string{"x[" + N + "]", "x | [" + N + "]", "x | @[" + N + "]", "(x)[" + N + "]", "x[*] | [" + N + "]", "x[?`true`] | [" + N + "]", "[x][0][" + N + "]", "rows[" + N + "][0]", "rows[" + N + "] | [1]", "rows[*][0] | [" + N + "]", "rows[] | [" + N + "]",
+		"recs[" + N + "].a", "recs | [" + N + "].a", "recs[*].a | [" + N + "]", "o.xs[" + N + "]", "o | xs[" + N + "]", "recs[0:2].xs[" + N + "]", "recs[:2].xs | [0][" + N + "]", "x[" + N + ":] | length(@)", "x | [" + N + ":] | length(@)", "x[:" + N + "] | length(@)", "x | [:" + N + "] | length(@)",
+		"x | [::" + N + "] | length(@)", "let $v = x in $v[" + N + "]", "x[?@ == $.x[" + N + "]]", "sort(x)[" + N + "]", "x[" + N + "] == x[" + N + "]", "[x[" + N + "], x | [" + N + "]]"}
+	for _, f := range forms {
+		if N == "0" && strings.Contains(f, "[::0]") {
+			continue
+		}
+		m, _ := c.CheckModel("C01", f, doc, goDoc, CheckOpts{Compiled: true, Features: map[string]string{"stream": "index-boundaries"}})
+		if IsNontrivialOutcome(m) {
+			c.Nontrivial(f, fmt.Sprint(n))
 		}
 	}
 }
